@@ -1,0 +1,31 @@
+//go:build verif
+
+package object
+
+// Verification harness accessors (build tag verif only).
+
+// VerifStore returns a copy of the bindings of this environment (not its parents).
+func (e *Environment) VerifStore() map[string]Object {
+	res := make(map[string]Object, len(e.store))
+	for k, v := range e.store {
+		res[k] = v
+	}
+	return res
+}
+
+func (e *Environment) VerifNumReg() int { return e.numReg }
+
+// VerifIsSmall reports whether a container uses the small (by value) representation.
+func VerifIsSmall(o Object) bool {
+	switch o.(type) {
+	case SmallArray, SmallMap:
+		return true
+	}
+	return false
+}
+
+// VerifIsExtraIdentifier reports whether name is one of the pre-seeded identifiers.
+func VerifIsExtraIdentifier(name string) bool {
+	_, ok := extraIdentifiers[name]
+	return ok
+}
